@@ -52,7 +52,7 @@ ANCHORS = [
     ("deepali.core.flow", "warp_points"),
     ("deepali.core.flow", "affine_flow"),
 ]
-N_CASES = {"quick": 16 * 12, "thorough": 16 * 400}
+N_CASES = {"quick": 16 * 12, "thorough": 16 * 1000}
 BUDGET = {"quick": 600, "thorough": 5400}
 TOL = 2e-4
 
